@@ -90,6 +90,7 @@ class Ctx:
         self.ring = None         # set by symx.ring
         self.forks = 0
         self.implied = 0
+        self.side = []           # bit-vector backend: exact no-overflow conditions of this path
 
     # -- activation
     def __enter__(self):
@@ -174,6 +175,13 @@ class Ctx:
         s.add(z3.Not(as_bool_term(goal)))
         r = timed_check(s)
         return r, (s.model() if r == "sat" else None)
+
+    def prove_side(self, timeout_ms=60000):
+        """bit-vector backend: no arithmetic operation on this path can wrap around, hence the
+        bit-vector execution coincides with the exact-integer execution."""
+        if not self.side:
+            return "unsat", None
+        return self.prove(z3.And(*self.side), timeout_ms=timeout_ms)
 
     def satisfiable(self, extra=(), timeout_ms=30000):
         s = z3.Solver()
@@ -332,7 +340,9 @@ class SymZ:
         if _is_bv():
             w = _backend()[1]
             if lo is None or hi is None or lo < -(1 << (w - 1)) or hi > (1 << (w - 1)) - 1:
-                raise Unsupported("bit-vector backend: possible overflow (%r, %r) at width %d" % (lo, hi, w))
+                # the interval cannot exclude wrap-around: the operation must have registered an
+                # exact no-overflow side condition (Ctx.side), proven per path by the harness
+                self.lo = self.hi = None
 
     # ---- construction helpers
     @staticmethod
@@ -388,16 +398,33 @@ class SymZ:
             return NotImplemented
         return SymZ(f(self.t, o2.t), *ivf(self, o2))
 
+    def _side(self, r, *conds):
+        """bit-vector backend: if the result interval does not exclude wrap-around, record the exact
+        no-overflow conditions of this operation as side conditions of the path."""
+        if r is NotImplemented or not _is_bv():
+            return r
+        if r.lo is None or r.hi is None:
+            cur().side.extend(conds)
+        return r
+
     def __add__(self, o):
-        return self._bin(o, lambda a, b: a + b,
-                         lambda a, b: (_iv_add(a.lo, b.lo), _iv_add(a.hi, b.hi)))
+        r = self._bin(o, lambda a, b: a + b,
+                      lambda a, b: (_iv_add(a.lo, b.lo), _iv_add(a.hi, b.hi)))
+        if r is NotImplemented or not _is_bv():
+            return r
+        b = SymZ.lift(o)
+        return self._side(r, z3.BVAddNoOverflow(self.t, b.t, True), z3.BVAddNoUnderflow(self.t, b.t))
 
     __radd__ = __add__
 
     def __sub__(self, o):
-        return self._bin(o, lambda a, b: a - b,
-                         lambda a, b: (None if a.lo is None or b.hi is None else a.lo - b.hi,
-                                       None if a.hi is None or b.lo is None else a.hi - b.lo))
+        r = self._bin(o, lambda a, b: a - b,
+                      lambda a, b: (None if a.lo is None or b.hi is None else a.lo - b.hi,
+                                    None if a.hi is None or b.lo is None else a.hi - b.lo))
+        if r is NotImplemented or not _is_bv():
+            return r
+        b = SymZ.lift(o)
+        return self._side(r, z3.BVSubNoOverflow(self.t, b.t), z3.BVSubNoUnderflow(self.t, b.t, True))
 
     def __rsub__(self, o):
         o2 = SymZ.lift(o)
@@ -406,7 +433,10 @@ class SymZ:
         return o2.__sub__(self)
 
     def __neg__(self):
-        return SymZ(-self.t, None if self.hi is None else -self.hi, None if self.lo is None else -self.lo)
+        r = SymZ(-self.t, None if self.hi is None else -self.hi, None if self.lo is None else -self.lo)
+        if _is_bv():
+            return self._side(r, z3.BVSNegNoOverflow(self.t))
+        return r
 
     def __pos__(self):
         return self
@@ -436,7 +466,10 @@ class SymZ:
             if a.get_id() > b.get_id():
                 a, b = b, a
             return SymZ(mul_uf()(a, b), *iv)
-        return SymZ(self.t * o2.t, *iv)
+        r = SymZ(self.t * o2.t, *iv)
+        if _is_bv():
+            return self._side(r, z3.BVMulNoOverflow(self.t, o2.t, True), z3.BVMulNoUnderflow(self.t, o2.t))
+        return r
 
     __rmul__ = __mul__
 
@@ -453,8 +486,10 @@ class SymZ:
             return NotImplemented
         o2._require_positive("floor division")
         iv = (None, None)
-        if None not in (self.lo, self.hi, o2.lo, o2.hi):
-            c = [self.lo // o2.lo, self.lo // o2.hi, self.hi // o2.lo, self.hi // o2.hi]
+        if None not in (self.lo, self.hi, o2.hi):
+            dlo = max(o2.lo, 1) if o2.lo is not None else 1     # divisor proven positive above
+            dhi = max(o2.hi, 1)
+            c = [self.lo // dlo, self.lo // dhi, self.hi // dlo, self.hi // dhi]
             iv = (min(c), max(c))
         if _is_bv():
             m = z3.SRem(self.t, o2.t)  # sign follows dividend
@@ -474,7 +509,7 @@ class SymZ:
         if o2 is None:
             return NotImplemented
         o2._require_positive("modulo")
-        iv = (0, None if o2.hi is None else o2.hi - 1)
+        iv = (0, None if o2.hi is None else max(o2.hi - 1, 0))
         if self.lo is not None and self.hi is not None and self.lo >= 0 and o2.lo is not None and self.hi < o2.lo:
             return self
         if _is_bv():
